@@ -48,6 +48,8 @@ def nested(rng, depth):
         return 'a' + '[' * depth + 'b' + ']' * depth + '{c:d}'
     if k == 6:
         return 'a{x:calc(' + '(1+' * depth + '1' + ')' * depth + ')}'
+    if k == 7 and depth % 2:
+        return 'a{x:' + 'calc(' * depth + '1' + ')' * depth + '}'
     return '@x ' + '{' * depth + '}' * depth
 
 
@@ -134,6 +136,10 @@ def gen_cases(ctx):
             for frag in G.FRAGMENTS:
                 if rng.random() < (0.12 if quick else 1.0):
                     cases.append({'kind': 'sheet', 'input': pre + frag, 'opts': opts(), 'family': 'state-x-token'})
+                if rng.random() < (0.04 if quick else 0.5):
+                    # the same fragment closed properly, so that it reaches the DOM and the serializer
+                    cases.append({'kind': 'sheet', 'input': pre + frag + ';' + ('}' if '{' in pre else '') + ' z{y:x}',
+                                  'opts': opts(), 'family': 'state-x-token-closed'})
     depths = [1, 2, 3, 5, 8, 12, 16, 20, 30, 50, 80, 100]
     for _ in range(n_nest):
         d = rng.choice(depths if not quick else depths[:9] + [50, 100])
@@ -207,7 +213,10 @@ def run(ctx):
     ctx.extra['input_distribution'] = fam
     # tie of Model/Slice.v + Model/Blocks.v: the implementation's slicing trace on malformed texts
     from harness import slicing
-    texts = [c['input'] for c in cases if c['kind'] in ('sheet', 'style') and c['family'] in ('soup', 'trunc', 'state-x-token')]
+    # only texts the pool handled quickly: this step runs in-process and must not hang on a tree with a time defect
+    fast = {id(c) for c, r in zip(cases, res) if r[0] == 'ok' and 'exc' not in r[1] and r[1].get('t', 9) < 0.5}
+    texts = [c['input'] for c in cases if id(c) in fast and c['kind'] in ('sheet', 'style')
+             and c['family'] in ('soup', 'trunc', 'state-x-token')]
     agree = slicing.correspondence(ctx, texts[:250 if ctx.tier == 'quick' else 5000])
     ctx.extra['correspondence'] = {'slicing_checks_agree_total': agree}
     ctx.sample({k: v for k, v in cases[len(cases) // 3].items()})
